@@ -18,6 +18,7 @@ type Val struct {
 	Fs []Val      // struct composite (by field index) or tuple
 	Fn *FnVal     // known function value
 	IsTuple bool
+	Tab *TableLit // table literal (proof of table facts)
 }
 
 type PtrKind int
